@@ -4367,7 +4367,8 @@ applyOrderBy:
 		// Top-N heap optimisation: when ORDER BY is paired with a small
 		// constant LIMIT and no OFFSET, use a bounded heap instead of a
 		// full sort so that only N rows are kept in memory.
-		if stmt.limit != nil && stmt.offset == nil {
+		// (not with DISTINCT: duplicates are removed after the sort, LIMIT counts distinct rows)
+		if stmt.limit != nil && stmt.offset == nil && !stmt.distinct {
 			if lv, lErr := evalExpAsInt(tx, stmt.limit, params); lErr == nil && lv > 0 && lv <= topNSortThreshold {
 				sortRdr.topNLimit = lv
 			}
